@@ -337,21 +337,35 @@ func (c *Cluster) Leader() *RNode { return c.Nodes[0] }
 // empty and every node has applied the leader's last index (no fixed sleeps: polls raft's own counters).
 func (c *Cluster) Quiesce(minIndex uint64, d time.Duration) bool {
 	stable := 0
-	return waitFor(d, func() bool {
+	reached := false
+	var quietSince time.Time
+	waitFor(d, func() bool {
 		l := c.Leader().Inner.LastIndex()
-		ok := l >= minIndex
+		quiet := true
 		for _, n := range c.Nodes {
 			if n.Inner.AppliedIndex() != l || n.Inner.LastIndex() != l || n.S.VerifMemberList().VerifQueued() != 0 {
-				ok = false
+				quiet = false
 			}
 		}
-		if ok {
-			stable++
-		} else {
+		if !quiet {
 			stable = 0
+			quietSince = time.Time{}
+			return false
 		}
-		return stable >= 3
+		if l >= minIndex {
+			stable++
+			reached = stable >= 3
+			return reached
+		}
+		// quiet but short of the expected index: a forwarded message is either in some node's gossip queue or
+		// being handled; when every queue has been empty and every index still for three seconds (six gossip
+		// intervals) nothing more is on its way
+		if quietSince.IsZero() {
+			quietSince = time.Now()
+		}
+		return time.Since(quietSince) > 3*time.Second
 	})
+	return reached
 }
 
 func (c *Cluster) Shutdown() {
